@@ -91,3 +91,19 @@ Example C07_nonvacuous :
   [53; 0; 13; 155; 1; 2; 255; 255; 255; 255; 255; 255;
    194; 170; 187; 255; 255; 255; 255; 255; 255; 255; 255; 104; 105].
 Proof. split; [exact fd_valid_example | exact fd_layout_example]. Qed.
+
+(* the converse, for EVERY octet string the decoder accepts (unconditional, CRC or not): the
+   decoded header and parameters, laid out again per the standard, are exactly the octets in
+   front of the CRC trailer -- not one octet more or fewer; the CRC over the declared packet is
+   0 when the flag is set; decoded metadata is 0..63 octets with state 0..3 *)
+Theorem C07_unpack_inv : forall d p, wf_bytes d -> fd_unpack d = Ok p ->
+  let h := fd_hdr p in
+  hdr_unpack d = Ok h /\ hdr_valid h /\
+  hdr_packet_len h <= len d /\
+  (cf_crc (h_conf h) = 1 -> crc16 (firstn (Z.to_nat (hdr_packet_len h)) d) = 0) /\
+  hdr_header_len h <= fd_end h /\
+  hdr_layout h ++ fd_body (h_conf h) (fd_params p) = firstn (Z.to_nat (fd_end h)) d /\
+  meta_valid (fp_meta (fd_params p)) /\
+  (h_meta h = match fp_meta (fd_params p) with None => 0 | Some _ => 1 end).
+Proof. exact fd_unpack_inv. Qed.
+Print Assumptions C07_unpack_inv.
